@@ -468,7 +468,9 @@ def generate_input(
         json_dict = {"comments": "",
                      "ranges": ranges_dict}
 
-        filename = os.path.join(input_dir, f'{label}.json')
+        # Each bias ratio gets its own input file
+        suffix = f'_bias_{eta}' if len(bias_ratios) > 1 else ''
+        filename = os.path.join(input_dir, f'{label}{suffix}.json')
 
         with open(filename, 'w') as json_file:
             json.dump(json_dict, json_file, indent=4)
